@@ -291,8 +291,9 @@ fn spell_num(n: &Num, rng: &mut Rng, st: &Style) -> String {
     match n {
         Num::Regular(_, s) => s.clone(),
         Num::Frac { whole, num, den } => {
-            let f = format!("{num}{}/{}{den}", sp(rng, st), sp(rng, st));
-            if *whole > 0 { format!("{whole} {f}") } else { f }
+            // blanks and block comments between the parts of a fraction / mixed number (several of them at once make long token runs)
+            let f = format!("{num}{}{}{}/{}{}{}{den}", sp(rng, st), cm(rng, st), sp(rng, st), sp(rng, st), cm(rng, st), sp(rng, st));
+            if *whole > 0 { let c = cm(rng, st); if c.is_empty() { format!("{whole} {f}") } else { format!("{whole} {c}{}{f}", rng.pick_str(&["", " "])) } } else { f }
         }
     }
 }
